@@ -20,9 +20,12 @@ FILE_TARGETS = ("delimited@file", "fixed@file", "fixed:none@file")
 PLANS = {
     "C04": {
         "quick": [("c04_quick", BOTH, session_check.READ_ACTIONS + ["ReaderFault"], None, None, None),
-                  ("c04_single", ("delimited",), session_check.READ_ACTIONS, None, None, None)],
+                  ("c04_single", ("delimited",), session_check.READ_ACTIONS, None, None, None),
+                  # three fields, the middle one may be empty: the column of a rejected cell behind an empty one
+                  ("c04_three", BOTH, session_check.READ_ACTIONS, None, None, None)],
         "thorough": [("c04_quick", BOTH, session_check.READ_ACTIONS + ["ReaderFault"], None, None, None),
                      ("c04_single", ("delimited",), session_check.READ_ACTIONS, None, None, None),
+                     ("c04_three", BOTH, session_check.READ_ACTIONS, None, None, None),
                      ("c04_single_h1", ("delimited",), session_check.READ_ACTIONS, None, None, None),
                      ("c04_h0", BOTH, session_check.READ_ACTIONS, None, None, None),
                      ("c04_h2", BOTH, session_check.READ_ACTIONS, None, None, None),
